@@ -4,7 +4,7 @@
    token, under the two float oracles. *)
 From Coq Require Import String List NArith ZArith Bool Lia.
 From GV Require Import Base.Outcome Base.AMap Model.GState Model.Creation Model.Query Model.XmlEscape Model.GraphML.
-From GV Require Import Spec.GraphMLDef Proofs.EscapeOk Proofs.GraphMLOk.
+From GV Require Import Spec.GraphMLDef Proofs.EscapeOk Proofs.GraphMLOk Proofs.CreationNoPanic Proofs.CreationNodes.
 Import ListNotations.
 
 Definition bare_node (n : gnode) : gnode := mknode (nname n) None.
@@ -169,6 +169,35 @@ Section RoundTrip.
   Proof.
     intros g s. unfold read_events, write_events. rewrite roundtrip_elements. reflexivity.
   Qed.
+
+  Lemma map_nname_bare : forall ns : list gnode, map nname (map bare_node ns) = map nname ns.
+  Proof. intro ns. rewrite map_map. reflexivity. Qed.
+
+  (* reading back what was written never panics *)
+  Theorem roundtrip_no_panic : forall g : ggraph,
+    is_panic (read_events parse (write_events fmt g) (sp g)) = false.
+  Proof.
+    intro g. rewrite roundtrip_graph. apply (new_from_no_panic bytes_eqb bytes_ltb bytes_eqb_eq).
+  Qed.
+
+  (* same node names in the same order, same specs (in particular same directedness),
+     for a graph whose names are distinct and whose edges join its own nodes *)
+  Theorem roundtrip_nodes_specs : forall g g' : ggraph,
+    NoDup (map nname (get_all_nodes g)) ->
+    (forall e, In e (get_all_edges g) ->
+       In (eu e) (map nname (get_all_nodes g)) /\ In (ev e) (map nname (get_all_nodes g))) ->
+    read_events parse (write_events fmt g) (sp g) = Ok g' ->
+    map nname (get_all_nodes g') = map nname (get_all_nodes g) /\ sp g' = sp g.
+  Proof.
+    intros g g' Hnd Hcl H. rewrite roundtrip_graph in H. split.
+    - assert (Hv : nodes_vec g' = map bare_node (get_all_nodes g)).
+      { apply (new_from_nodes_closed bytes_eqb bytes_ltb bytes_eqb_eq _ _ _ _) with (3 := H).
+        - rewrite map_nname_bare. exact Hnd.
+        - intros e He. apply in_map_iff in He. destruct He as [e0 [<- He0]]. rewrite map_nname_bare.
+          cbn [bare_edge eu ev]. apply Hcl. exact He0. }
+      unfold get_all_nodes at 1. rewrite Hv. apply map_nname_bare.
+    - exact (new_from_specs bytes_eqb bytes_ltb bytes_eqb_eq _ _ _ _ H).
+  Qed.
 End RoundTrip.
 
 (* the oracle hypotheses are satisfiable: one weight token = one non-markup symbol *)
@@ -204,4 +233,27 @@ Proof.
       replace (2 * Z.to_N z / 2)%N with (Z.to_N z).
       * rewrite Z2N.id by lia. reflexivity.
       * apply N.div_unique with (r := 0%N); lia.
+Qed.
+
+(* the hypotheses of roundtrip_nodes_specs are met by a concrete graph whose names need escaping *)
+Definition ex_graph : outcome ggraph :=
+  new_from_nodes_and_edges bytes_eqb bytes_ltb
+    [mknode [97%N] None; mknode [60%N; 38%N] None]
+    [mkedge [97%N] [60%N; 38%N] (Some 5%Z) None; mkedge [60%N; 38%N] [60%N; 38%N] None None]
+    (mkspecs true DErr MErr false true SErr).
+
+Example roundtrip_nonvacuous : exists g g',
+  ex_graph = Ok g /\
+  NoDup (map nname (get_all_nodes g)) /\
+  (forall e, In e (get_all_edges g) ->
+     In (eu e) (map nname (get_all_nodes g)) /\ In (ev e) (map nname (get_all_nodes g))) /\
+  read_events ex_parse (write_events ex_fmt g) (sp g) = Ok g' /\
+  map nname (get_all_nodes g') = [[97%N]; [60%N; 38%N]] /\
+  length (get_all_edges g') = 2%nat.
+Proof.
+  eexists. eexists. split; [vm_compute; reflexivity|].
+  split; [cbn; repeat constructor; cbn; intuition discriminate|].
+  split; [intros e He; cbn in He; destruct He as [<-|[<-|[]]]; cbn; auto|].
+  split; [vm_compute; reflexivity|].
+  split; reflexivity.
 Qed.
